@@ -37,6 +37,7 @@ package json
 // beyond the cap. arrLen/objLen: the rest of an array/object after its opening bracket (items
 // separated by single commas, one trailing comma tolerated, members "key" : value).
 //@ ghostfun valLen(bytes, int, int) int
+//@ spec tokOf(c) = ite(c == '"', TokString, ite(c == '[', TokArray, ite(c == '{', TokObject, ite(c == 't', TokTrue, ite(c == 'f', TokFalse, ite(c == 'n', TokNull, TokNumber))))))
 //@ ghostfun arrLen(bytes, int, int) int
 //@ ghostfun objLen(bytes, int, int) int
 //@ spec tokLen(s, lvl, cap) = ite(s[0] == '"', plus(1, strLen(s[1:])), ite(s[0] == '[', plus(1, arrLen(s[1:], lvl + 1, cap)), ite(s[0] == '{', plus(1, objLen(s[1:], lvl + 1, cap)), ite(s[0] == 't', ite(hasPrefix(s, "true"), 4, 0), ite(s[0] == 'f', ite(hasPrefix(s, "false"), 5, 0), ite(s[0] == 'n', ite(hasPrefix(s, "null"), 4, 0), numLen(s)))))))
@@ -137,6 +138,7 @@ package json
 //@   ensures [C08C09_J2] old(p.ib) <= p.ib && p.ib <= old(p.ib) + len(b)
 //@   ensures [C08_J1] n > 0 ==> p.ib == old(p.ib) + n
 //@   ensures [C09_closed] n > 0 ==> b[n-1] == ']'
+//@   ensures [C08_G_tok_frame] p.firstToken == old(p.firstToken)
 //@   ensures [C09_G_arr] n == arrLen(b, lvl, p.maxRecursion)
 //@   uses arr_def, ws_def
 //@   ensures [C10_stack_grows] len(p.currPath) >= old(len(p.currPath))
@@ -144,6 +146,7 @@ package json
 //@   decreases p.maxRecursion + 9 - lvl, 1
 //@   loop 1 invariant 0 <= n && n <= len(b) && p.ib == old(p.ib) + n
 //@   loop 1 invariant [C10_stack] len(p.currPath) == old(len(p.currPath)) + 1 && p.currPath[:len(p.currPath)-1] == old(p.currPath)
+//@   loop 1 invariant [C08_G_tok_inv] p.firstToken == old(p.firstToken)
 //@   loop 1 invariant [C09_G_arr_inv] arrLen(b, lvl, p.maxRecursion) == plus(n, arrLen(b[n:], lvl, p.maxRecursion))
 //@   loop 1 invariant [C10_mono_inv] old(p.querySatisfied) ==> p.querySatisfied
 //@   loop 1 decreases len(b) - n
@@ -170,6 +173,7 @@ package json
 //@   ensures [C08C09_J2] old(p.ib) <= p.ib && p.ib <= old(p.ib) + len(b)
 //@   ensures [C08_J1] n > 0 ==> p.ib == old(p.ib) + n
 //@   ensures [C09_closed] n > 0 ==> b[n-1] == '}'
+//@   ensures [C08_G_tok_frame] p.firstToken == old(p.firstToken)
 //@   ensures [C09_G_obj] n == objLen(b, lvl, p.maxRecursion)
 //@   uses obj_def, ws_def
 //@   ensures [C10_stack_grows] len(p.currPath) >= old(len(p.currPath))
@@ -177,6 +181,7 @@ package json
 //@   decreases p.maxRecursion + 9 - lvl, 1
 //@   loop 1 invariant 0 <= n && n <= len(b) && p.ib == old(p.ib) + n
 //@   loop 1 invariant [C10_stack] p.currPath == old(p.currPath)
+//@   loop 1 invariant [C08_G_tok_inv] p.firstToken == old(p.firstToken)
 //@   loop 1 invariant [C09_G_obj_inv] objLen(b, lvl, p.maxRecursion) == plus(n, objLen(b[n:], lvl, p.maxRecursion))
 //@   loop 1 invariant [C10_mono_inv] old(p.querySatisfied) ==> p.querySatisfied
 //@   loop 1 decreases len(b) - n
@@ -195,6 +200,8 @@ package json
 //@   assigns p.ib, p.currPath, p.firstToken, p.querySatisfied, ghost(jdepth)
 //@   ensures 0 <= n && n <= len(b)
 //@   ensures ok ==> n > 0
+//@   ensures [C08_G_tok] ite(lvl == 0 && wsLen(b) < len(b), p.firstToken == tokOf(b[wsLen(b)]), p.firstToken == old(p.firstToken))
+//@   ensures [C08_G_sat] len(qs) == 0 && wsLen(b) < len(b) && lvl <= p.maxRecursion ==> p.querySatisfied
 //@   ensures [C09_G_val] ok == (valLen(b, lvl, p.maxRecursion) > 0) && (ok ==> n == valLen(b, lvl, p.maxRecursion))
 //@   uses val_def, ws_def
 //@   ensures [C08C09_J2] old(p.ib) <= p.ib && p.ib <= old(p.ib) + len(b)
@@ -227,8 +234,14 @@ package json
 //@   ensures [C08C09_J2] 0 <= inspected && inspected <= len(raw)
 //@   ensures [C08_J1] parsed > 0 ==> inspected == parsed
 //@   defines (parsed == len(raw) && len(raw) > 0) == parseComplete(raw)
+//@   ensures [C08_G_tok] wsLen(raw) < len(raw) ==> firstToken == tokOf(raw[wsLen(raw)])
+//@   ensures [C08_G_none] queryType == "json" && wsLen(raw) < len(raw) ==> querySatisfied
+//@   ensures [C08C09_G_parse] parsed == pos0(valLen(raw, 0, maxRecursion))
 
 //@ func json.LooksLikeObjectOrArray
+//@   ensures [C08C09_G_looks] result == (wsLen(raw) < len(raw) && (raw[wsLen(raw)] == '{' || raw[wsLen(raw)] == '['))
+//@   uses ws_def
+//@   loop 1 invariant [C08C09_G_looks_inv] wsLen(raw) == rangeindex + 1 + wsLen(raw[rangeindex+1:])
 //@   ensures [C09_looks] result ==> (exists i :: 0 <= i && i < len(raw) && (raw[i] == '{' || raw[i] == '[') && (forall j :: 0 <= j && j < i ==> isSpaceB(raw[j])))
 //@   loop 1 invariant [C09_looks_inv] forall j :: 0 <= j && j <= rangeindex ==> isSpaceB(raw[j])
 
